@@ -57,7 +57,7 @@ def main(tier):
     broken = ck.stage_a(errs, ["GenSer.v"], "TieSer.v", "C10.v", tie_text=modties.ser_tie_text())
     gen_ok = not any(o[0].startswith("compile:") or o[0].startswith("translate:") for o in broken)
     rng = ck.rng
-    ncase = 36 if tier == "quick" else 300
+    ncase = 36 if tier == "quick" else 800
     wq = ["qint8", "qint4", "qint2", "qfloat8", "qfloat8_e4m3fn", "qfloat8_e5m2", "qint4", "qint2"]
     aq = [None, "qint8", "qfloat8", None, "qint8"]
     cases = []
@@ -66,22 +66,29 @@ def main(tier):
         dtype = ["float32", "float16", "bfloat16"][i % 3]
         w = wq[i % 8]
         a = aq[(i // 3) % 5]
-        if dtype == "bfloat16" and w == "qint8" and a is None:
-            for _, sp in named_specs(tree):
-                if sp["t"] == "linear" and sp["in"] % 4 == 0 and sp["in"] % 16 != 0:
-                    w = "qint4"  # F14: that configuration crashes the interpreter
         cal = a is not None and rng.random() < 0.8
+        stream = cal and rng.random() < 0.4
+        if dtype == "bfloat16" and w == "qint8" and (a is None or stream):
+            # F14: bfloat16 activations x qint8 weights are routed to torch._weight_int8pack_mm, which crashes the interpreter on weights whose
+            # rows are not aligned (in_features % 16 != 0, or a payload loaded from safetensors): exercised by the crash-isolated case below
+            w = "qint4"
         if dtype != "float32" and a is not None:
             for _, sp in named_specs(tree):
                 if sp["t"] == "ln" and not sp["affine"]:
                     sp["affine"], sp["bias"] = True, True  # F28 (C08): exercised by the directed case below
         frz = rng.random() < 0.75
         cases.append({"seed": ck.seed * 1000 + i, "dtype": dtype, "weights": w, "activations": a, "tree": tree, "input": inp, "calibrate": cal, "freeze": frz,
-                      "optimizer": "clip" if frz and rng.random() < 0.25 else None, "streamline": cal and rng.random() < 0.4,
+                      "optimizer": "clip" if frz and rng.random() < 0.25 else None, "streamline": stream,
                       "load_from": [rng.choice(["pickle", "weights_only", "safetensors"])] if tier == "quick" else ["pickle", "weights_only", "safetensors"], "second_cycle": rng.random() < 0.5})
     # directed (F28): a calibrated half-precision model with a parameterless LayerNorm, reloaded
     cases.append({"seed": 21, "dtype": "float16", "weights": "qint4", "activations": "qfloat8", "calibrate": True, "freeze": True, "input": [2, 32], "load_from": ["pickle"], "second_cycle": False, "directed": "F28",
                   "tree": {"t": "seq", "ch": [{"t": "linear", "in": 32, "out": 16, "bias": True}, {"t": "ln", "shape": [16], "affine": False, "bias": False, "eps": 1e-5}, {"t": "linear", "in": 16, "out": 8, "bias": True}]}})
+    crash = {"seed": 22, "dtype": "bfloat16", "weights": "qint8", "activations": None, "calibrate": False, "freeze": True, "input": [1, 64], "load_from": ["safetensors"], "second_cycle": False,
+             "tree": {"t": "seq", "ch": [{"t": "linear", "in": 64, "out": 6, "bias": True}]}}
+    rc = ck.impl("ser", {"cases": [crash]}, timeout=600)
+    if isinstance(rc, dict) or not rc[0]["ok"] or any(not t.get("ok") or not t.get("outputs_equal") for t in rc[0]["targets"].values()):
+        ck.violation("bfloat16 model with frozen qint8 weights and float activations reloaded from safetensors: forward is routed to torch._weight_int8pack_mm, which crashes the interpreter "
+                     "on a payload that is not aligned in memory", {"case": crash, "result": rc if isinstance(rc, dict) else rc[0]["targets"]})
     res = ck.impl("ser", {"cases": cases}, timeout=3300)
     if isinstance(res, dict):
         ck.violation("implementation worker crashed: " + res.get("stderr", "")[-300:], {"stderr": res.get("stderr")})
